@@ -73,7 +73,8 @@ Definition victims_ok (s : state) (vs : list path) : bool :=
   forallb (fun v => has_file s v && negb (existsb (fun f => under (wf_path f) v) (st_wt s)) && negb (is_dir_wt s v)) vs.
 Definition rm_glob_guard (s : state) (pat : bytes) : bool :=
   let victims := filter (gmatch pat) (map ie_path (st_index s)) in
-  negb (match victims with [] => true | _ => false end) && victims_ok s victims.
+  negb (match victims with [] => true | _ => false end) && victims_ok s victims &&
+  (has_meta pat || negb (existsb (under pat) (map ie_path (st_index s)))).
 
 Lemma in_wt_remove l p f : In f (wt_remove l p) -> In f l.
 Proof.
@@ -160,9 +161,15 @@ Qed.
 
 Lemma rm_glob_eq s pat : rm_glob_guard s pat = true -> g_rm_glob s pat = s_rm_glob s pat.
 Proof.
-  unfold rm_glob_guard, g_rm_glob, s_rm_glob. cbv zeta.
-  set (victims := filter (gmatch pat) (map ie_path (st_index s))).
-  intros G. apply andb_true_iff in G as [G1 G2].
+  unfold rm_glob_guard, g_rm_glob, s_rm_glob. cbv zeta. intros G. apply andb_true_iff in G as [G G3].
+  assert (Ef : filter (git_rm_match pat) (map ie_path (st_index s)) = filter (gmatch pat) (map ie_path (st_index s))).
+  { apply filter_ext_in. intros q Hq. unfold git_rm_match. destruct (has_meta pat); cbn [negb andb orb] in *; [now rewrite orb_false_r|].
+    apply negb_true_iff in G3. assert (U : under pat q = false).
+    { apply not_true_is_false. intros C. assert (X : existsb (under pat) (map ie_path (st_index s)) = true) by (apply existsb_exists; eauto). congruence. }
+    now rewrite U, orb_false_r. }
+  rewrite Ef. clear Ef G3.
+  set (victims := filter (gmatch pat) (map ie_path (st_index s))) in *.
+  apply andb_true_iff in G as [G1 G2].
   rewrite (fold_rm_glob victims s G2).
   destruct victims as [|v0 vr] eqn:Ev; [discriminate|]. rewrite <- Ev in *.
   assert (Hd : existsb (fun v => is_dir_wt s v && negb (has_file s v)) victims = false).
